@@ -134,6 +134,7 @@ type funcCtx struct {
 	frame  frameSet
 	names  map[string]ssa.Value // unique local names
 	nexits int
+	refNames map[string]bool
 }
 
 type Exec struct {
@@ -647,7 +648,48 @@ func (x *Exec) specEnv(p *Path) *SpecEnv {
 	for k, v := range p.lets {
 		vars[k] = v
 	}
-	return &SpecEnv{x: x, vars: vars, H: p.H, H0: p.H0, HN: p.H0}
+	env := &SpecEnv{x: x, vars: vars, H: p.H, H0: p.H0, HN: p.H0}
+	x.spareVars(vars) // initialises the set of names the contract refers to
+	env.spare = map[string]SV{} // only loop-carried variables are candidates (added by loopVars)
+	return env
+}
+
+// spareVars: local names (not parameters) that no clause of the current contract mentions.
+func (x *Exec) spareVars(vars map[string]SV) map[string]SV {
+	ct := x.cur.ct
+	if x.cur.refNames == nil {
+		x.cur.refNames = map[string]bool{}
+		add := func(src string) {
+			for _, id := range reSym.FindAllString(src, -1) {
+				x.cur.refNames[id] = true
+			}
+		}
+		for _, c := range allClauses(ct) {
+			add(c.Src)
+		}
+		for _, l := range ct.Loops {
+			for _, c := range l.Assigns {
+				add(c.Src)
+			}
+			if l.Decreases != nil {
+				add(l.Decreases.Src)
+			}
+		}
+		for _, c := range ct.Assigns {
+			add(c.Src)
+		}
+	}
+	out := map[string]SV{}
+	for k, v := range vars {
+		if _, isParam := x.cur.params[k]; isParam {
+			continue
+		}
+		if x.cur.refNames[k] || k == "idx" || k == "rangeindex" || k == "ord" || k == "ordn" || k == "ordpos" {
+			continue
+		}
+		out[k] = v
+	}
+	return out
 }
 
 func sanitize(s string) string {
